@@ -262,3 +262,33 @@ fn c16_injected_create_concept_cannot_write_engine_owned_fields() {
     kani::cover!(!protected, "ordinary name accepted");
     std::mem::forget((r, clause));
 }
+
+// guard_update, structural actions only (no field name, so a small unwind bound is enough): both SET
+// STRUCTURAL and UNSET STRUCTURAL are refused on a target the WHERE block binds as a record kind
+// (added after seeded change C16-5, which narrowed the guard to SET STRUCTURAL)
+fn structural_update(kind: u8) {
+    let unset: bool = kani::any();
+    let var = String::from("a");
+    let clause = match kind {
+        0 => WhereClause::Assertion { variable: var.clone(), matcher: ObjectMatcher::new() },
+        1 => WhereClause::Evidence { variable: var.clone(), matcher: ObjectMatcher::new() },
+        _ => WhereClause::Activity { variable: var.clone(), matcher: ObjectMatcher::new() },
+    };
+    let action = if unset { UpdateAction::UnsetStructural(Vec::new()) } else { UpdateAction::SetStructural(Vec::new()) };
+    let st = UpdateStatement { target: ElementRef::Handle(var), expect_version: None, actions: vec![action], where_clauses: Some(vec![clause]), limit: None };
+    let r = guard_update(&st);
+    assert!(r.is_err(), "neither SET nor UNSET STRUCTURAL may reach an Assertion, Evidence or Activity");
+    kani::cover!(unset, "UNSET STRUCTURAL");
+    kani::cover!(!unset, "SET STRUCTURAL");
+    std::mem::forget((r, st));
+}
+// (guard_update as a whole did not finish in 400 s even without a field name: its second half walks
+// every action's values for foreign variable reads. Thorough tier, expected not decided.)
+// @check id=C16 tier=thorough cap=600 role=guard_update_structural harness=c16_structural_update_on_assertion
+// @fns parser::kml::guard_update, parser::kml::bound_kind_of, parser::kml::guard_structural_mutation
+// @bound an injected UPDATE ?a SET STRUCTURAL {} / UNSET STRUCTURAL {} (symbolic choice) WHERE { ?a ASSERTION {} }
+#[kani::proof]
+#[kani::unwind(3)]
+fn c16_structural_update_on_assertion() {
+    structural_update(0);
+}
